@@ -3,11 +3,19 @@
 package mux
 
 import (
+	"bytes"
 	"html"
+	"maps"
 	"math/bits"
+	"net/url"
+	"path"
 	"regexp"
+	"slices"
+	"sort"
 	"strconv"
 	"strings"
+	"sync"
+	"sync/atomic"
 	"unicode"
 
 	zzv "github.com/issue9/mux/v9/internal/zzverif"
@@ -116,5 +124,94 @@ func ZZSelfUnicode(n int) {
 		return
 	}()
 	zzv.Obs("growpanic", grew)
+	zzv.Cover("selftest")
+}
+
+// ZZSelfMisc(n): library helpers a refactoring is likely to reach for, on a symbolic string of <= n bytes.
+func ZZSelfMisc(n int) {
+	s := zzv.Bytes("s", n)
+	zzv.Assume(zzASCII(s))
+	parts := strings.Split(s, ",")
+	sort.Strings(parts)
+	zzv.Obs("sorted", strings.Join(parts, "|"))
+	p2 := strings.Split(s, ",")
+	sort.Slice(p2, func(i, j int) bool { return p2[i] > p2[j] })
+	zzv.Obs("sortslice", strings.Join(p2, "|"))
+	p3 := slices.Clone(p2)
+	slices.SortFunc(p3, func(a, b string) int { return strings.Compare(a, b) })
+	zzv.Obs("sortfunc", strings.Join(p3, "|"))
+	_, found := slices.BinarySearch(p3, "a")
+	zzv.Obs("bsearch", found)
+	mp := map[string]int{}
+	for i, p := range parts {
+		mp[p] = i
+	}
+	keys := slices.Sorted(maps.Keys(mp))
+	zzv.Obs("keys", strings.Join(keys, "|"))
+	cl := maps.Clone(mp)
+	delete(cl, "a")
+	zzv.Obs("clone", len(cl)*10+len(mp))
+	var bb bytes.Buffer
+	bb.WriteString(s)
+	bb.WriteByte('!')
+	zzv.Obs("buffer", bb.String())
+	zzv.Obs("appendint", string(strconv.AppendInt(nil, int64(len(s))*37-5, 10)))
+	zzv.Obs("fields", strings.Join(strings.Fields(s), "|"))
+	zzv.Obs("repeat", strings.Repeat(s, 2))
+	zzv.Obs("compact", strings.Join(slices.Compact(slices.Clone(parts)), "|"))
+	zzv.Obs("idxfunc", slices.IndexFunc(parts, func(x string) bool { return x == "" }))
+	zzv.Obs("contains", slices.Contains(parts, "b"))
+	zzv.Obs("minmax", min(len(s), 2)*10+max(len(parts), 1))
+	once := sync.OnceValue(func() int { return len(s) })
+	zzv.Obs("once", once()+once())
+	var ap atomic.Pointer[string]
+	ap.Store(&s)
+	zzv.Obs("atomicptr", *ap.Load())
+	a, b, _ := strings.Cut(s, ":")
+	u, err := url.Parse("http://h/" + a)
+	zzv.Obs("urlerr", err != nil)
+	if err == nil {
+		zzv.Obs("urlpath", u.Path)
+	}
+	zzv.Obs("pathclean", path.Clean("/"+b))
+	zzv.Obs("trimleft", strings.TrimLeft(s, "-/"))
+	zzv.Obs("replace", strings.ReplaceAll(s, "a", "bb"))
+	zzv.Obs("lastidx", strings.LastIndex(s, "/"))
+	zzv.Obs("title", strings.ToTitle(s))
+	zzv.Obs("eqfold", strings.EqualFold(s, "A,b"))
+	zzv.Obs("atoi", func() int { v, _ := strconv.Atoi(s); return v }())
+	zzv.Cover("selftest")
+}
+
+var zzSelfClass = func() (t [128]uint8) {
+	for c := '0'; c <= '9'; c++ {
+		t[c] = 1
+	}
+	for c := 'a'; c <= 'z'; c++ {
+		t[c] = 2
+	}
+	return
+}()
+var zzSelfFlags = []bool{true, false, false, true, true, false, true}
+
+// ZZSelfTable(n): table look-ups with a symbolic index (if-then-else chain instead of one path per index).
+func ZZSelfTable(n int) {
+	s := zzv.Bytes("s", n)
+	sum := 0
+	for i := 0; i < len(s); i++ {
+		sum = sum*3 + int(zzSelfClass[s[i]&0x7f])
+	}
+	zzv.Obs("classes", sum)
+	if len(s) > 0 {
+		p := func() (p bool) {
+			defer func() { p = recover() != nil }()
+			if zzSelfFlags[s[0]>>4] {
+				sum++
+			}
+			return
+		}()
+		zzv.Obs("oob", p)
+		zzv.Obs("flag", sum)
+	}
 	zzv.Cover("selftest")
 }
